@@ -1,5 +1,6 @@
 import CarModel.ReadOnly
 import CarModel.Proofs.StoreGet
+import CarModel.Proofs.ReadOnlyOpen
 /-
 C07 — Read-only random access agrees with a sequential scan of the same archive.
 -/
@@ -112,6 +113,75 @@ theorem blockstore_eq_storage (o : WOpts) (roots : Option (List Cid)) (log : Lis
     · simp only [List.append_nil] at hf hf'
       exact ⟨by simp [ReadOnly.step, hid, hab, ReadOnly.findCid, hpb, hf],
              by simp [ReadOnly.step, hid, has, ReadOnly.findCid, hps, hf']⟩
+
+/-- What `OpenReadOnly` builds over a CARv1: the payload itself and an index that is sound and
+    complete for it. -/
+theorem opened_v1_indexOK (o : WOpts) (roots : Option (List Cid)) (log : List Block) (r : ReadOnly)
+    (hopen : openReadOnly .blockstore o .auto (payload roots log) = .ok r)
+    (hwf : (CarHeader.mk roots 1).wf) (hmax : (encodeHeaderBody ⟨roots, 1⟩).length ≤ o.maxHeader)
+    (h63 : (encodeHeaderBody ⟨roots, 1⟩).length < 2 ^ 63) (hok : ∀ b ∈ log, b.idxOk (roIdxOpts o))
+    (hsz : (payload roots log).length < 2 ^ 63)
+    (hkept : ∀ b ∈ log, (o.storeIdentity || !b.cid.isIdentity) = true) :
+    r.payload = payload roots log ∧ r.api = .blockstore ∧ r.roots = (roots.getD []) ∧
+    IndexOK o r.idx.getAll (headerSize ⟨roots, 1⟩) log := by
+  have hoffs : ∀ rc ∈ keptRecords (roIdxOpts o) (headerSize ⟨roots, 1⟩) log, rc.offset < 2 ^ 64 := by
+    intro rc hrc
+    obtain ⟨l1, b, l2, hl, hr⟩ := mem_keptRecords _ _ _ _ hrc
+    have : (payload roots log).length = headerSize ⟨roots, 1⟩ + (sectionsBytes log).length := by
+      simp [payload, headerSize]
+    have h2 : (sectionsBytes l1).length ≤ (sectionsBytes log).length := by
+      rw [hl]; simp [sectionsBytes]
+    have p : (2:Nat) ^ 63 < 2 ^ 64 := by decide
+    rw [hr]; simp only; omega
+  unfold openReadOnly at hopen
+  simp only [payload] at hopen
+  rw [readHeader_encode o.maxHeader ⟨roots, 1⟩ _ hwf hmax h63] at hopen
+  simp only [↓reduceIte] at hopen
+  have hload := loadIndexRecords_v1 .seekable (roIdxOpts o) roots log hwf hmax h63 hok hsz
+  simp only [payload, roIdxOpts] at hload
+  rw [hload] at hopen
+  simp only at hopen
+  cases hl : Index.load o.codec (keptRecords (roIdxOpts o) (headerSize ⟨roots, 1⟩) log) with
+  | none => simp only [roIdxOpts] at hl; simp [hl, Except.map] at hopen
+  | some ix =>
+    simp only [roIdxOpts] at hl
+    simp only [hl, Except.map, Except.ok.injEq] at hopen
+    subst hopen
+    refine ⟨by simp [payload], rfl, rfl, ?_, ?_⟩
+    · intro key off hoff
+      have := (index_getAll_load o.codec _ ix hl hoffs key off).mp hoff
+      obtain ⟨rc, hrc, _, _, ho⟩ := this
+      obtain ⟨l1, b, l2, hl1, hr⟩ := mem_keptRecords _ _ _ _ hrc
+      exact ⟨l1, b, l2, hl1, by rw [← ho, hr]⟩
+    · intro l1 b l2 key hlog hk
+      refine (index_getAll_load o.codec _ ix hl hoffs key _).mpr ⟨⟨b.cid, headerSize ⟨roots, 1⟩ + (sectionsBytes l1).length⟩, ?_, ?_, ?_, rfl⟩
+      · rw [hlog]; exact keptRecords_complete _ l1 b l2 _ (hkept b (by rw [hlog]; simp))
+      · intro _
+        unfold Spec.sameKey at hk
+        split at hk
+        · have := eq_of_beq hk; rw [this]
+        · simp only [Bool.and_eq_true, beq_iff_eq] at hk; exact hk.1
+      · unfold Spec.sameKey at hk
+        split at hk
+        · have := eq_of_beq hk; rw [this]
+        · simp only [Bool.and_eq_true, beq_iff_eq] at hk; exact hk.2
+
+/-- (5) End to end, no index hypothesis: open any CARv1 the writers can emit (every block indexed:
+    identity CIDs only under StoreIdentityCIDs) with `blockstore.OpenReadOnly` and either sorted
+    codec; then Has says true exactly for the keys some section carries and Get returns the bytes of
+    such a section, not-found otherwise — random access over the GENERATED index equals the scan. -/
+theorem opened_v1_has_get (o : WOpts) (roots : Option (List Cid)) (log : List Block) (r : ReadOnly)
+    (hopen : openReadOnly .blockstore o .auto (payload roots log) = .ok r)
+    (hwf : (CarHeader.mk roots 1).wf) (hmax : (encodeHeaderBody ⟨roots, 1⟩).length ≤ o.maxHeader)
+    (h63 : (encodeHeaderBody ⟨roots, 1⟩).length < 2 ^ 63) (hok : ∀ b ∈ log, b.idxOk (roIdxOpts o))
+    (hsz : (payload roots log).length < 2 ^ 63)
+    (hkept : ∀ b ∈ log, (o.storeIdentity || !b.cid.isIdentity) = true)
+    (hlog : ∀ b ∈ log, b.getOk o) (c : Cid) (hid : identityShortcut o c = false) :
+    (r.step o (.has c) = .bool (log.any fun b => Spec.sameKey o b.cid c)) ∧
+    ((∃ b ∈ log, Spec.sameKey o b.cid c = true ∧ r.step o (.get c) = .data b.data) ∨
+     ((∀ b ∈ log, Spec.sameKey o b.cid c = false) ∧ r.step o (.get c) = .err .notFound)) := by
+  obtain ⟨hp, hapi, _, hidx⟩ := opened_v1_indexOK o roots log r hopen hwf hmax h63 hok hsz hkept
+  exact ro_has_get o roots log r hp hapi hidx hlog c hid
 
 /-- Non-vacuity: the empty payload has a (trivially) sound and complete index. -/
 example (o : WOpts) : IndexOK o (fun _ => []) 17 [] :=
